@@ -8,6 +8,8 @@ pub mod h_match;
 pub mod sc;
 pub mod h_fsm;
 pub mod h_loop;
+pub mod h_expr;
+pub mod h_content;
 
 pub use vnd::*;
 
@@ -17,5 +19,7 @@ pub fn run_harness(name: &str) -> bool {
     if h_match::run(name) { return true; }
     if h_fsm::run(name) { return true; }
     if h_loop::run(name) { return true; }
+    if h_expr::run(name) { return true; }
+    if h_content::run(name) { return true; }
     false
 }
